@@ -357,6 +357,40 @@ fn fam_tiny(ctx: &CaseCtx, cov: &mut Cov) -> CaseOut {
     out
 }
 
+/// streams that go on producing output long after their last input byte has been read: one
+/// literal (or a short preamble), then hundreds of the cheapest symbol there is - a repeat of
+/// the last distance at full length (273 bytes for a fraction of a bit once the probabilities
+/// have adapted). A decoder that takes "input exhausted while much is still owed" for truncation
+/// rejects them.
+fn fam_cheap_tail(ctx: &CaseCtx, cov: &mut Cov) -> CaseOut {
+    let mut out = CaseOut::default();
+    let i = ctx.index as usize;
+    let mut rng = ctx.rng();
+    let props = if i % 3 == 0 { Props::new(3, 0, 2) } else { random_props(&mut rng) };
+    let mut prog: Vec<Sym> = Vec::new();
+    for _ in 0..[1usize, 1, 2, 5, 40][i % 5] {
+        prog.push(Sym::Lit(rng.byte()));
+    }
+    let n = [20usize, 60, 150, 200, 249, 400][(i / 5) % 6];
+    let len = if (i / 30) % 4 == 3 { 272 } else { 273 };
+    for _ in 0..n {
+        prog.push(Sym::Rep { idx: 0, len });
+    }
+    let term = [Term::HeaderSize, Term::ProvidedNoHeaderField, Term::RawSized, Term::ProvidedOverride, Term::HeaderSizeAndMarker, Term::Marker][(i / 7) % 6];
+    let pc = PositiveCase {
+        props,
+        prog: &prog,
+        term,
+        dict: if term.is_raw() { [4096u32, 1 << 20][i % 2] } else { [4096u32, 0, 1 << 16, 1 << 23][i % 4] },
+        reader: ReaderKind::from_selector(i as u64 / 3),
+        max_dist: 1,
+    };
+    cov.name("cheap_tail.streams", 1);
+    let n_out = check_positive(&pc, "cheap_tail", &mut out, cov, ctx, true);
+    out.sample = n_out.map(|n| sample_of(&pc, n));
+    out
+}
+
 fn random_props(rng: &mut Rng) -> Props {
     if rng.chance(1, 3) {
         // the settings real encoders use
@@ -812,6 +846,7 @@ pub fn monitor(tier: Tier) -> Monitor {
             Family { name: "corners", count: 84 * 8, priority: true, enumerated: true, run: fam_corners },
             Family { name: "all_props", count: tier.pick(225, 225 * 4), priority: true, enumerated: false, run: fam_all_props },
             Family { name: "tiny", count: tier.pick(900 * 2, 900 * 7), priority: true, enumerated: false, run: fam_tiny },
+            Family { name: "cheap_tail", count: tier.pick(120, 1200), priority: true, enumerated: false, run: fam_cheap_tail },
             Family { name: "wrap", count: tier.pick(3000, 60_000), priority: false, enumerated: false, run: fam_wrap },
             Family { name: "random", count: tier.pick(30_000, 1_500_000), priority: false, enumerated: false, run: fam_random },
             Family { name: "liblzma", count: tier.pick(1500, 40_000), priority: false, enumerated: false, run: fam_liblzma },
